@@ -476,3 +476,216 @@ __CPROVER_decreases(unitsToSplit - i)
     replay=dict(prog='unit_corner', args=['unitsToSplit', 'beginNode', 'endNode'], sources=['libgalois/src/GraphHelpers.cpp']),
     trusted=['stubs/gv_vec.h'],
 ))
+
+# ---------------------------------------------------------------------------
+# determineUnitRanges* (GraphHelpers.h): per-thread unit offsets.
+#
+# Here divideNodesBinarySearch is replaced by its CUT VIEW: piece id is
+# [CUT(id), CUT(id+1)) for one (uninterpreted, i.e. arbitrary but fixed) cut
+# function with CUT(0) = 0, CUT non-decreasing, CUT(total) = numNodes.  This
+# view is an ASSUMED contract; it is the logical consequence of what is proved
+# above for the real function: (i) it has an empty frame and is deterministic,
+# (ii) lemma_dnbs_adjacent: piece(id).end == piece(id+1).begin, (iii)
+# lemma_dnbs_ends: first piece starts at 0, last ends at numNodes, each piece
+# is ordered.  Define CUT(j) := piece(j).begin for j < total, CUT(total) :=
+# numNodes.  (The step from the lemmas to this contract is the one hand-made
+# step; the callers' argument agreement with the proved contract -- offsets,
+# edge counts taken from the same prefix sum, edge weight 1, empty scale
+# factor -- is checked as the precondition of the cut view at the call.)
+CUTV = '''
+#include "gv_vec.h"
+typedef struct PS PS;
+uint32_t gq;   /* ghost probe index into the result */
+#define GV_MAXU 65536u   /* units <= 2^16 */
+const uint32_t* g_cut;  /* ghost: the cut function as a read-only array (calls are not allowed in loop invariants) */
+uint64_t __CPROVER_uninterpreted_psv(uint64_t i);   /* the prefix-sum values: prefixSum[i] */
+#define CUT(j) g_cut[j]
+#define PSV(i) __CPROVER_uninterpreted_psv(i)
+uint64_t g_psn;  /* number of entries of the prefix sum */
+static inline uint64_t ps_get(const PS* ps, uint64_t i)
+{ __CPROVER_assert(i < g_psn, "prefix-sum index in range"); return PSV(i); }
+static inline uint64_t ps_size(const PS* ps) { return g_psn; }
+static inline void gv_vec_u32_resize(struct gv_vec_u32* v, size_t n)
+{ __CPROVER_assert(n <= v->cap, "harness provides capacity"); v->size = n; }
+struct SFempty { int unused; };
+#define GV_DEREF(x) (x)
+'''
+UNITS.append(Unit(
+    name='dnbs_cut_u32', kind='assumed', prelude=[CUTV],
+    proto='struct pair_u32 dnbs_cut_u32(uint32_t numNodes, uint64_t numEdges, size_t nodeWeight, size_t edgeWeight, size_t id, size_t total, const PS* edgePrefixSum, struct SFempty* scaleFactor, uint64_t edgeOffset, uint64_t nodeOffset)',
+    contract='''
+__CPROVER_requires(numNodes >= 1 && total >= 1 && total <= GV_MAXU && id < total && edgeWeight == 1 && nodeOffset + numNodes <= g_psn)
+__CPROVER_requires(edgeOffset == (nodeOffset != 0 ? PSV(nodeOffset - 1) : 0) && numEdges == PSV(nodeOffset + numNodes - 1) - edgeOffset)
+__CPROVER_ensures(__CPROVER_return_value.first == CUT(id) && __CPROVER_return_value.second == CUT(id + 1))
+__CPROVER_ensures(CUT(id) <= CUT(id + 1) && CUT(id + 1) <= numNodes)
+__CPROVER_ensures(id == 0 ==> CUT(id) == 0)
+__CPROVER_ensures(id + 1 == total ==> CUT(id + 1) == numNodes)
+__CPROVER_assigns()
+''',
+    says='ASSUMED cut view of divideNodesBinarySearch<.,uint32_t>(..).first, justified by lemma_dnbs_adjacent_u32 + lemma_dnbs_ends_u32 + determinism (see comment)'))
+
+UR_POST = '''(returnRanges->data[0] == beginNode && returnRanges->data[unitsToSplit] == endNode && \\
+   (gq < unitsToSplit ==> returnRanges->data[gq] <= returnRanges->data[gq + 1]) && \\
+   (gq <= unitsToSplit ==> (beginNode <= returnRanges->data[gq] && returnRanges->data[gq] <= endNode)))'''
+UR_LOOP = '''
+__CPROVER_assigns(i, __CPROVER_object_whole(returnRanges->data))
+__CPROVER_loop_invariant(i <= unitsToSplit && returnRanges->data[0] == beginNode)
+__CPROVER_loop_invariant(i > 0 ==> returnRanges->data[i] == beginNode + g_cut[i])
+__CPROVER_loop_invariant(i == unitsToSplit ==> returnRanges->data[i] == endNode)
+__CPROVER_loop_invariant(beginNode <= returnRanges->data[i] && returnRanges->data[i] <= endNode)
+__CPROVER_loop_invariant(gq < i ==> returnRanges->data[gq] <= returnRanges->data[gq + 1])
+__CPROVER_loop_invariant(gq <= i ==> (beginNode <= returnRanges->data[gq] && returnRanges->data[gq] <= endNode))
+__CPROVER_decreases(unitsToSplit - i)
+'''
+
+UR_REQ = '__CPROVER_is_fresh(g_cut, ((size_t)GV_MAXU + 2) * sizeof(uint32_t)) && GV_VEC_VALID(returnRanges, (size_t)GV_MAXU + 1) && unitsToSplit >= 1 && unitsToSplit <= GV_MAXU && returnRanges->size == (size_t)unitsToSplit + 1 && beginNode < endNode && endNode <= g_psn'
+UNITS.append(Unit(
+    name='determineUnitRangesLoopPrefixSum', src=GH_H,
+    anchor=r'void determineUnitRangesLoopPrefixSum\(VectorTy& prefixSum,',
+    proto='void determineUnitRangesLoopPrefixSum(const PS* prefixSum, uint32_t unitsToSplit, uint32_t beginNode, uint32_t endNode, struct gv_vec_u32* returnRanges, uint32_t nodeAlpha)',
+    contract='''
+__CPROVER_requires(''' + UR_REQ + ''')
+__CPROVER_ensures(''' + UR_POST + ''')
+__CPROVER_assigns(__CPROVER_object_whole(returnRanges->data))
+''',
+    prelude=[CUTV], uses=['dnbs_cut_u32'],
+    lower=[refs(['returnRanges'], 7), index(r'\(\*returnRanges\)', 'GV_AT_U32', 7),
+           index('prefixSum', 'ps_get', 4),
+           rx(r'std::vector<unsigned int> dummyScaleFactor;', 'struct SFempty dummyScaleFactor_obj; struct SFempty* dummyScaleFactor = &dummyScaleFactor_obj;'),
+           rx(r'auto nodeSplits\s*=\s*divideNodesBinarySearch<VectorTy, uint32_t>', 'struct pair_u32 nodeSplits = dnbs_cut_u32'),
+           rx(r'\)\s*\.first;', ');', 1, 1),
+           rx(r'\*\(nodeSplits\.(first|second)\)', r'GV_DEREF(nodeSplits.\1)', 2, 2),
+           dropcall('galois::gDebug')],
+    loops={1: UR_LOOP},
+    backend='smt', timeout=600,
+    inst='VectorTy = any container with operator[] (values through the uninterpreted function PSV); divideNodesBinarySearch through its cut view',
+    says='unit offsets start at beginNode, never decrease, end at endNode; the code\'s own (compiled-out) assertion that consecutive pieces agree is proved',
+    trusted=['dnbs_cut_u32 (assumed cut view, justified by the proved lemmas)', 'stubs/gv_vec.h'],
+))
+
+TOP_LOWER = [rx(r'std::vector<uint32_t> (returnRanges|nodeRanges);', '', 1, 1),
+             rx(r'return (returnRanges|nodeRanges);', 'return;', 1)]
+UNITS.append(Unit(
+    name='determineUnitRangesFromPrefixSum_range', src=GH_H,
+    anchor=r'determineUnitRangesFromPrefixSum\(uint32_t unitsToSplit, VectorTy& edgePrefixSum,\s*uint32_t beginNode, uint32_t endNode,',
+    proto='void determineUnitRangesFromPrefixSum_range(uint32_t unitsToSplit, const PS* edgePrefixSum, uint32_t beginNode, uint32_t endNode, uint32_t nodeAlpha, struct gv_vec_u32* returnRanges)',
+    contract='''
+__CPROVER_requires(__CPROVER_is_fresh(g_cut, ((size_t)GV_MAXU + 2) * sizeof(uint32_t)) && GV_VEC_VALID(returnRanges, (size_t)GV_MAXU + 1) && returnRanges->cap == (size_t)GV_MAXU + 1)
+__CPROVER_requires(unitsToSplit >= 1 && unitsToSplit <= GV_MAXU && beginNode <= endNode && endNode <= g_psn)
+__CPROVER_ensures(returnRanges->size == (size_t)unitsToSplit + 1)
+__CPROVER_ensures(''' + UR_POST + ''')
+__CPROVER_assigns(returnRanges->size, __CPROVER_object_whole(returnRanges->data))
+''',
+    prelude=[VEC, VEC32, CUTV], uses=['unitRangeCornerCaseHandle', 'determineUnitRangesLoopPrefixSum'],
+    lower=TOP_LOWER + [call('returnRanges', 'resize', 'gv_vec_u32_resize', addr=False),
+                       ren('internal::unitRangeCornerCaseHandle', 'unitRangeCornerCaseHandle'),
+                       ren('internal::determineUnitRangesLoopPrefixSum', 'determineUnitRangesLoopPrefixSum'),
+                       dropcall('internal::unitRangeSanity')],
+    backend='smt', timeout=600,
+    inst='VectorTy abstract; result vector returned through an out-parameter (rule R-out)',
+    says='per-thread unit offsets over a node sub-range: start at beginNode, never decrease, end at endNode, for every unit count >= 1 including more units than nodes and empty ranges',
+    trusted=['unitRangeSanity call dropped (debug-only assertions; its conditions are this postcondition)'],
+))
+
+
+def _sub(text, **kw):
+    import re as _re
+    for k, v in kw.items():
+        text = _re.sub(r'(?<![\w>.])' + k + r'(?![\w])', v, text)
+    return text
+
+
+UNITS.append(Unit(
+    name='determineUnitRangesFromPrefixSum_whole', src=GH_H,
+    anchor=r'std::vector<uint32_t> determineUnitRangesFromPrefixSum\(uint32_t unitsToSplit,\s*VectorTy& edgePrefixSum,\s*uint32_t nodeAlpha = 0\)',
+    proto='void determineUnitRangesFromPrefixSum_whole(uint32_t unitsToSplit, const PS* edgePrefixSum, uint32_t nodeAlpha, struct gv_vec_u32* nodeRanges)',
+    contract=_sub('''
+__CPROVER_requires(__CPROVER_is_fresh(g_cut, ((size_t)GV_MAXU + 2) * sizeof(uint32_t)) && GV_VEC_VALID(returnRanges, (size_t)GV_MAXU + 1) && returnRanges->cap == (size_t)GV_MAXU + 1)
+__CPROVER_requires(unitsToSplit >= 1 && unitsToSplit <= GV_MAXU && g_psn <= UINT32_MAX)
+__CPROVER_ensures(returnRanges->size == (size_t)unitsToSplit + 1)
+__CPROVER_ensures(''' + UR_POST + ''')
+__CPROVER_assigns(returnRanges->size, __CPROVER_object_whole(returnRanges->data))
+''', returnRanges='nodeRanges', beginNode='0u', endNode='((uint32_t)g_psn)'),
+    prelude=[VEC, VEC32, CUTV], uses=['dnbs_cut_u32'],
+    lower=TOP_LOWER[:1] + [rx(r'return nodeRanges;', 'return;', 2, 2),
+                           call('nodeRanges', 'resize', 'gv_vec_u32_resize', addr=False),
+                           call('edgePrefixSum', 'size', 'ps_size', addr=False),
+                           index('nodeRanges', 'GV_AT_U32P', 8),
+                           index('edgePrefixSum', 'ps_get', 1),
+                           rx(r'auto nodeSplits\s*=\s*divideNodesBinarySearch<VectorTy, uint32_t>\(\s*numNodes, numEdges, nodeAlpha, 1, i, unitsToSplit, edgePrefixSum\)\s*\.first;',
+                              'struct pair_u32 nodeSplits = dnbs_cut_u32(numNodes, numEdges, nodeAlpha, 1, i, unitsToSplit, edgePrefixSum, /* default arguments: */ 0, 0, 0);', 1, 1),
+                           rx(r'\*\(nodeSplits\.(first|second)\)', r'GV_DEREF(nodeSplits.\1)', 2, 2),
+                           dropcall('galois::gDebug')],
+    loops={1: '''
+__CPROVER_assigns(i, __CPROVER_object_whole(nodeRanges->data))
+__CPROVER_loop_invariant(i <= unitsToSplit && nodeRanges->data[0] == 0 && nodeRanges->data[i] == 0)
+__CPROVER_loop_invariant(gq <= i ==> nodeRanges->data[gq] == 0)
+__CPROVER_loop_invariant((gq < UINT32_MAX && gq + 1 <= i) ==> nodeRanges->data[gq + 1] == 0)
+__CPROVER_decreases(unitsToSplit - i)
+''', 2: _sub(UR_LOOP, returnRanges='nodeRanges', beginNode='0u', endNode='numNodes')},
+    backend='smt', timeout=600,
+    inst='VectorTy abstract (size() = number of entries); default arguments of divideNodesBinarySearch made explicit',
+    says='per-thread unit offsets over a whole prefix sum: start at 0, never decrease, end at the number of nodes; empty prefix sum gives all zeros',
+))
+
+# graph-based variants: the graph is used only through edge_begin / edge_end /
+# operator[] (= the edge prefix sum: edge_end(n) = PSV(n), edge_begin(n) =
+# PSV(n-1) or 0) and size().  That relation is the CSR index arithmetic
+# (property C11 covers LC_CSR_Graph's raw_begin/raw_end); ASSUMED here.
+GRAPHV = '''
+static inline uint64_t g_edge_end(const PS* g, uint64_t n) { __CPROVER_assert(n < g_psn, "node in range"); return PSV(n); }
+static inline uint64_t g_edge_begin(const PS* g, uint64_t n) { __CPROVER_assert(n < g_psn, "node in range"); return n != 0 ? PSV(n - 1) : 0; }
+'''
+UNITS.append(Unit(
+    name='determineUnitRangesLoopGraph', src=GH_H,
+    anchor=r'void determineUnitRangesLoopGraph\(GraphTy& graph, uint32_t unitsToSplit,',
+    proto='void determineUnitRangesLoopGraph(const PS* graph, uint32_t unitsToSplit, uint32_t beginNode, uint32_t endNode, struct gv_vec_u32* returnRanges, uint32_t nodeAlpha)',
+    contract='''
+__CPROVER_requires(''' + UR_REQ + ''')
+__CPROVER_ensures(''' + UR_POST + ''')
+__CPROVER_assigns(__CPROVER_object_whole(returnRanges->data))
+''',
+    prelude=[CUTV, GRAPHV], uses=['dnbs_cut_u32'],
+    lower=[dropcall('galois::gDebug'),
+           refs(['returnRanges'], 5), index(r'\(\*returnRanges\)', 'GV_AT_U32', 5),
+           call('graph', 'edge_end', 'g_edge_end', addr=False), call('graph', 'edge_begin', 'g_edge_begin', addr=False, minimum=2),
+           rx(r'\*g_edge_begin\(([^()]*)\)', r'GV_DEREF(g_edge_begin(\1))', 1, 1),
+           rx(r'std::vector<unsigned int> dummyScaleFactor;', 'struct SFempty dummyScaleFactor_obj; struct SFempty* dummyScaleFactor = &dummyScaleFactor_obj;'),
+           rx(r'auto nodeSplits\s*=\s*divideNodesBinarySearch<GraphTy, uint32_t>', 'struct pair_u32 nodeSplits = dnbs_cut_u32'),
+           rx(r'\)\s*\.first;', ');', 1, 1),
+           rx(r'\*\(nodeSplits\.(first|second)\)', r'GV_DEREF(nodeSplits.\1)', 2, 2)],
+    loops={1: UR_LOOP},
+    backend='smt', timeout=600,
+    inst='GraphTy = any graph whose edge_begin/edge_end/operator[] are the CSR prefix-sum relation (assumed; C11)',
+    says='unit offsets over a graph node range: start at beginNode, never decrease, end at endNode',
+    trusted=['graph stub g_edge_begin/g_edge_end: edge_end(n) = prefix sum at n, edge_begin(n) = prefix sum at n-1 (0 for node 0)'],
+))
+for nm, anchor, rng in [
+        ('determineUnitRangesFromGraph_whole', r'std::vector<uint32_t> determineUnitRangesFromGraph\(GraphTy& graph,\s*uint32_t unitsToSplit,\s*uint32_t nodeAlpha = 0\)', False),
+        ('determineUnitRangesFromGraph_range', r'determineUnitRangesFromGraph\(GraphTy& graph, uint32_t unitsToSplit,\s*uint32_t beginNode, uint32_t endNode,', True)]:
+    if rng:
+        proto = 'void %s(const PS* graph, uint32_t unitsToSplit, uint32_t beginNode, uint32_t endNode, uint32_t nodeAlpha, struct gv_vec_u32* returnRanges)' % nm
+        post, extra_req = UR_POST, 'beginNode <= endNode && endNode <= g_psn'
+        lw = []
+    else:
+        proto = 'void %s(const PS* graph, uint32_t unitsToSplit, uint32_t nodeAlpha, struct gv_vec_u32* returnRanges)' % nm
+        post, extra_req = _sub(UR_POST, beginNode='0u', endNode='((uint32_t)g_psn)'), 'g_psn <= UINT32_MAX'
+        lw = [call('graph', 'size', 'ps_size', addr=False)]
+    UNITS.append(Unit(
+        name=nm, src=GH_H, anchor=anchor, proto=proto,
+        contract='''
+__CPROVER_requires(__CPROVER_is_fresh(g_cut, ((size_t)GV_MAXU + 2) * sizeof(uint32_t)) && GV_VEC_VALID(returnRanges, (size_t)GV_MAXU + 1) && returnRanges->cap == (size_t)GV_MAXU + 1)
+__CPROVER_requires(unitsToSplit >= 1 && unitsToSplit <= GV_MAXU && ''' + extra_req + ''')
+__CPROVER_ensures(returnRanges->size == (size_t)unitsToSplit + 1)
+__CPROVER_ensures(''' + post + ''')
+__CPROVER_assigns(returnRanges->size, __CPROVER_object_whole(returnRanges->data))
+''',
+        prelude=[VEC, VEC32, CUTV, GRAPHV], uses=['unitRangeCornerCaseHandle', 'determineUnitRangesLoopGraph'],
+        lower=TOP_LOWER + lw + [call('returnRanges', 'resize', 'gv_vec_u32_resize', addr=False),
+                                ren('internal::unitRangeCornerCaseHandle', 'unitRangeCornerCaseHandle'),
+                                ren('internal::determineUnitRangesLoopGraph', 'determineUnitRangesLoopGraph'),
+                                dropcall('internal::unitRangeSanity')],
+        backend='smt', timeout=600,
+        inst='GraphTy abstract; result vector through an out-parameter (rule R-out)',
+        says='per-thread unit offsets over a graph: start at the first node, never decrease, end at the last, for every unit count >= 1',
+    ))
